@@ -206,7 +206,7 @@ def _strategy_chain(shapes):
         P = {nm: draw(gen.arr(sh, -1.2, 1.2)) for nm, sh in sorted(shapes_.items())}
         return {"family": "chain", "D": D, "R": R, "N": N, "start": start, "mid": mid, "terminal": term, "P": P,
                 "d": draw(gen.arr((2, N, D), -1.5, 1.5)), "w_seed": draw(st.integers(0, 10**6)),
-                "dirs": draw(st.integers(0, 10**6))}
+                "dirs": draw(st.integers(0, 10**6)), "jit_first": draw(st.booleans())}
     return s()
 
 
@@ -236,6 +236,7 @@ def _strategy_cond(shapes):
         case["d"] = draw(gen.arr((2, max(N, 2) if case["pipe"] == "kalman_scan" else N, Dx + Dy), -1.5, 1.5))
         case["w_seed"] = draw(st.integers(0, 10**6))
         case["dirs"] = draw(st.integers(0, 10**6))
+        case["jit_first"] = draw(st.booleans())
         return case
     return s()
 
@@ -269,7 +270,14 @@ def _run_p(case):
         F = lambda P_, d_: pipes.cond_pipe(case2, P_, d_)
         tag = f"pipe[{case['pipe']}" + (f":{case['link']}" if case["pipe"].startswith("het") else "") + "]"
         bound = case["pipe"] == "het_bound"
-    ok, ref = lib(fails, tag + ".eager", lambda: np.asarray(F(P, d0)))
+    # order of execution: in half of the cases the jitted program runs BEFORE the eager reference (state that a trace
+    # leaves behind in the library - memoised helpers, module-level caches - must not change or break later eager calls)
+    got_first = None
+    if case.get("jit_first"):
+        okj, got_first = lib(fails, tag + ".jit_before_eager", lambda: np.asarray(jax.jit(F)(P, d0)))
+        if not okj:
+            got_first = None
+    ok, ref = lib(fails, tag + (".eager_after_jit" if case.get("jit_first") else ".eager"), lambda: np.asarray(F(P, d0)))
     if not ok:
         return fails
     if not np.all(np.isfinite(ref)):
@@ -278,7 +286,7 @@ def _run_p(case):
     scale = 1.0 + np.abs(ref)
     tol = 1e-6 if bound else 1e-8
     # (ii) jit
-    ok, got = lib(fails, tag + ".jit", lambda: np.asarray(jax.jit(F)(P, d0)))
+    ok, got = (True, got_first) if got_first is not None else lib(fails, tag + ".jit", lambda: np.asarray(jax.jit(F)(P, d0)))
     if ok:
         check(fails, tag + ":jit", got, ref, scale, tol=tol)
     # (iii) vmap over the data axis vs stacked eager calls
@@ -338,8 +346,8 @@ def _nontrivial_p(case):
 
 def _labels_p(case):
     if case["family"] == "chain":
-        return [f"start={case['start']}", f"terminal={case['terminal']}", f"nmid={len(case['mid'])}"] + [f"mid={m['op']}" + (f"/{m['fkind']}" if "fkind" in m else "") for m in case["mid"]]
-    return [f"pipe={case['pipe']}", f"kind={case['kind']}"] + ([f"link={case['link']}"] if case["pipe"].startswith("het") else [])
+        return [f"start={case['start']}", f"terminal={case['terminal']}", f"nmid={len(case['mid'])}", "jit_first" if case.get("jit_first") else "eager_first"] + [f"mid={m['op']}" + (f"/{m['fkind']}" if "fkind" in m else "") for m in case["mid"]]
+    return [f"pipe={case['pipe']}", f"kind={case['kind']}", "jit_first" if case.get("jit_first") else "eager_first"] + ([f"link={case['link']}"] if case["pipe"].startswith("het") else [])
 
 
 SUBS = [
